@@ -1,6 +1,9 @@
 SPECIFICATION Spec
 CONSTANTS
   Subs <- S_Subs
+  Notas = {"scanner", "dec", "hex", "oct", "bin", "mixed"}
+  Subs2 <- NoSubs
+  Notas2 = {}
   HostClasses <- MCHostClasses
   HostOf <- MCHostOf
   Export = FALSE
